@@ -30,6 +30,9 @@ def run(ctx: Ctx):
     subtotal_rule(ctx)
     subtotal_rule_dependence(ctx)
     filters(ctx)
+    from .common import order_index_sign_tests
+
+    order_index_sign_tests(ctx, "order-index-sign")
 
 
 def provenance(ctx: Ctx):
